@@ -201,6 +201,82 @@ Theorem C20_go_append_trim_is_join : forall l, go_join l = join_comma l.
 Proof. exact go_join_eq. Qed.
 Print Assumptions C20_go_append_trim_is_join.
 
+(* 8. Extra flavour, the two statements left open before. The handler never fails on a manifest whose layer digests
+   are well-formed (whatever the reference, prefetch size, URLs) ... *)
+Theorem C20_extra_handler_succeeds :
+  forall children ref pf md c rest,
+    c_layer c = true -> digest_valid (c_digest c) = true ->
+    Forall (fun x => c_layer x = true -> digest_valid (c_digest x) = true) rest ->
+    exists l, extra_ann children ref pf md (c :: rest) = Some l.
+Proof. exact extra_handler_succeeds. Qed.
+Print Assumptions C20_extra_handler_succeeds.
+
+(* ... and the prefix of following layers in cri.image-layers is maximal: it is every layer of children[i:], or the
+   label with the next digest appended would exceed containerd's size limit. *)
+Theorem C20_extra_layers_prefix_maximal :
+  forall c rest,
+    c_layer c = true -> digest_valid (c_digest c) = true ->
+    Forall (fun x => c_layer x = true -> digest_valid (c_digest x) = true) rest ->
+    let ls := map c_digest (filter c_layer (c :: rest)) in
+    split_comma (cri_layers_value (c :: rest)) = ls \/
+    exists n d, split_comma (cri_layers_value (c :: rest)) = firstn n ls /\ nth_error ls n = Some d /\
+                max_label < key_len KCriLayers + length (join_comma (firstn n ls ++ [d])).
+Proof. exact extra_layers_prefix_maximal. Qed.
+Print Assumptions C20_extra_layers_prefix_maximal.
+
+(* 9. Annotations the manifest itself carries on a layer descriptor (a0, arbitrary, present before the handlers run).
+   Default flavour: the handler overwrites every key FromDefaultLabels reads, so that reader's result and the prefetch
+   size are exactly those of a clean descriptor; every other key stays as supplied. *)
+Theorem C20_manifest_annotations_default_reader_immune :
+  forall (parse_ref : str -> option str) a0 ref R pf c rest dflt,
+    parse_ref ref = Some R ->
+    c_layer c = true -> digest_valid (c_digest c) = true ->
+    Forall (fun x => c_layer x = true) rest ->
+    Forall (fun x => digest_valid (c_digest x) = true) rest ->
+    in_int64 pf ->
+    read_default parse_ref (default_ann_over a0 ref pf (c :: rest))
+    = read_default parse_ref (default_ann ref pf (c :: rest))
+    /\ prefetch_of (default_ann_over a0 ref pf (c :: rest)) dflt = pf
+    /\ (forall k, (forall v, ~ In (k, v) (default_ann ref pf (c :: rest))) ->
+          lget (default_ann_over a0 ref pf (c :: rest)) k = lget a0 k).
+Proof. exact preexisting_default_immune. Qed.
+Print Assumptions C20_manifest_annotations_default_reader_immune.
+
+(* ... and because they stay, the full statement "the service chain reconstructs the pulled reference and digest
+   whatever the manifest carries" is false of the code (known finding F17d): manifest-supplied cri.image-ref /
+   cri.layer-digest make the service reader answer with THEIR source while FromDefaultLabels answers with the pulled one. *)
+Theorem C20_manifest_annotations_service_refuted :
+  exists a0 c rest ref pf,
+    c_layer c = true /\ Forall (fun x => c_layer x = true /\ digest_valid (c_digest x) = true) (c :: rest) /\
+    match read_default (fun s => Some s) (default_ann_over a0 ref pf (c :: rest)),
+          read_service (fun s => Some s) (default_ann_over a0 ref pf (c :: rest)) with
+    | ROk r1 d1 _ _, ROk r2 d2 _ _ => r1 = ref /\ d1 = c_digest c /\ r2 <> ref /\ d2 <> c_digest c
+    | _, _ => False
+    end.
+Proof. exact preexisting_cri_wins_refuted. Qed.
+Print Assumptions C20_manifest_annotations_service_refuted.
+
+(* Extra flavour: containerd's wrapper overwrites the cri.* keys, so whatever the manifest carries, a successful handler
+   run is read back with the pulled reference, the layer's digest and the neighbours of containerd's layers label
+   (the `_partial` of "everything is immune") ... *)
+Theorem C20_manifest_annotations_extra_partial :
+  forall (parse_ref : str -> option str) a0 children ref R pf md c rest l,
+    extra_ann_over a0 children ref pf md (c :: rest) = Some l ->
+    parse_ref ref = Some R -> digest_valid (c_digest c) = true ->
+    exists u n, read_cri parse_ref l = ROk R (c_digest c) u n
+                /\ n = neigh_spec l (c_digest c) 0 (split_comma (cri_layers_value (c :: rest))).
+Proof. exact preexisting_extra_source_immune. Qed.
+Print Assumptions C20_manifest_annotations_extra_partial.
+
+(* ... while the "nop if this key is already set" tests keep manifest-supplied urls / prefetch annotations (known
+   finding F17e): the prefetch size read at mount time is the annotation's, not the pull-time one. *)
+Theorem C20_manifest_annotations_extra_refuted :
+  exists a0 children ref pf md l,
+    extra_ann_over a0 children ref pf md children = Some l /\ in_int64 pf /\
+    prefetch_of l 0%Z <> pf /\ lget l KUrls = lget a0 KUrls /\ lget a0 KUrls <> None.
+Proof. exact preexisting_extra_kept_refuted. Qed.
+Print Assumptions C20_manifest_annotations_extra_refuted.
+
 (* Non-vacuity: a three-layer manifest (the middle layer foreign, with two URLs) satisfies the hypotheses of
    C20_roundtrip_default and is reconstructed with both neighbours and their own URLs; removing the digest label or
    corrupting it makes the reader reject. *)
